@@ -3,7 +3,7 @@ import itertools
 
 import numpy as np
 
-from symtt.core import scenario, HarnessError, SkipTV
+from symtt.core import unchanged_inputs, scenario, HarnessError, SkipTV
 from symtt import dense as D
 from .common import meta_ok
 
@@ -78,6 +78,7 @@ def _bd_grid(tier):
 
 
 @scenario('C15', 'basis_decomposition', _bd_grid)
+@unchanged_inputs('x')
 def basis_decomposition(ctx, d, m, mix):
     """basis_decomposition(x, phi) and its single_core variants"""
     tdt = ctx.R.transform
@@ -135,6 +136,7 @@ def _apply(ctx, name, t):
 
 
 @scenario('C15', 'coordinate_function_major', _cm_grid)
+@unchanged_inputs('x')
 def coordinate_function_major(ctx, d, m, fam):
     """coordinate_major: mode i lists the functions applied to coordinate i; function_major: mode k lists function k applied to every coordinate (add_one on/off)"""
     tdt = ctx.R.transform
@@ -180,6 +182,7 @@ def coordinate_function_major(ctx, d, m, fam):
 
 
 @scenario('C15', 'gram', lambda tier: [{'d': d, 'm1': a, 'm2': b, 'mix': mix} for d in (1, 2) for (a, b) in ((1, 1), (2, 3), (3, 1)) for mix in MIXES[:4]])
+@unchanged_inputs('x', 'y')
 def gram(ctx, d, m1, m2, mix):
     """gram(x1, x2, basis) == matrix of inner products of the transformed snapshots"""
     tdt = ctx.R.transform
